@@ -345,6 +345,20 @@ Proof.
   intros [->|(code & NZ & ->)]; cbn; [reflexivity|]. rewrite N.eqb_refl. cbn. destruct code; [congruence|reflexivity].
 Qed.
 
+Lemma sp_clause_ok (cleanp cleane : bool) (ver sei : N) :
+  negb cleanp && ((ver <? 5) && negb cleane || (ver =? 5) && (0 <? sei)) && negb (negb (cleanp || cleane && (ver <? 5)))
+  || (cleanp || (ver <? 5) && cleane) && negb (cleanp || cleane && (ver <? 5)) = false.
+Proof.
+  destruct cleanp; destruct cleane; destruct (ver <? 5) eqn:L5; destruct (ver =? 5) eqn:E5; destruct (0 <? sei);
+  cbn; try reflexivity; exfalso; lia.
+Qed.
+
+Lemma takeover_pk_ok (ver : N) :
+  (if ver =? 5
+   then match [PDisconnect (if ver <? 5 then 0 else 142)] with [PDisconnect 142] => true | _ => false end
+   else match [PDisconnect (if ver <? 5 then 0 else 142)] with [] => true | [PDisconnect _] => true | _ => false end) = true.
+Proof. destruct (ver =? 5) eqn:E5; destruct (ver <? 5) eqn:L5; try reflexivity; exfalso; lia. Qed.
+
 Theorem m14_step_ok k i m s o r :
   inv14 m s (o :: r) ->
   inv14 (fst (m14_step i m (obs_of (tstep_of k s o)))) (fst (step k s o)) r /\
@@ -458,8 +472,7 @@ Proof.
         (* session present *)
         assert (V1 : (if (negb (cp_clean p) && (((o_ver eo <? 5) && negb (o_clean eo)) || ((o_ver eo =? 5) && (0 <? o_sei eo))) && negb sp)
                          || ((cp_clean p || ((o_ver eo <? 5) && o_clean eo)) && sp) then [mkv V14_sp i c e] else []) = []).
-        { rewrite ESP. destruct (cp_clean p); destruct (o_clean eo); destruct (o_ver eo <? 5) eqn:L5; destruct (o_ver eo =? 5) eqn:E5;
-          destruct (0 <? o_sei eo); cbn; try reflexivity; exfalso; lia. }
+        { rewrite ESP, sp_clause_ok. reflexivity. }
         rewrite V1. cbn [app].
         (* resume keeps *)
         assert (V2 : (if sp then
@@ -501,14 +514,13 @@ Proof.
           destruct (c =? ec) eqn:EQ2; [apply N.eqb_eq in EQ2; congruence|]. cbn [app]. rewrite app_nil_r.
           rewrite EO1. cbn [pkts_to flat_map closes app]. rewrite N.eqb_refl. cbn [app].
           assert (MC : memN ec [ec] = true) by (apply memN_true; left; reflexivity). rewrite MC, andb_true_r.
-          destruct (o_ver eo =? 5) eqn:E5; destruct (o_ver eo <? 5) eqn:L5; try reflexivity; exfalso; lia. }
-        rewrite V4.
-        split; [|reflexivity]. split; [exact INV'|exact NEWCL|rewrite U; exact FR'].
+          rewrite takeover_pk_ok. reflexivity. }
+        split; [|exact V4]. split; [exact INV'|exact NEWCL|rewrite U; exact FR'].
       * cbn [option_map].
         change (aget e (st_clients s0)) with (aget e (st_clients s)) in IO. rewrite A in IO. destruct IO as [ESP EO1].
         subst sp. cbn [andb orb negb app].
         destruct (cp_clean p) eqn:CP.
-        -- destruct (SUBS0 eq_refl) as [A1 A2]. cbn [sclient_of sc_conn sc_subs sc_infl]. rewrite C2, N.eqb_refl, A1, A2, (NOIX eq_refl). cbn.
+        -- destruct (SUBS0 eq_refl) as [A1 A2]. cbn [sclient_of sc_conn sc_subs sc_infl snap_of sn_index]. rewrite C2, N.eqb_refl, A1, A2, (NOIX eq_refl). cbn.
            split; [|reflexivity]. split; [exact INV'|exact NEWCL|rewrite U; exact FR'].
         -- cbn. split; [|reflexivity]. split; [exact INV'|exact NEWCL|rewrite U; exact FR'].
   - (* an operation on existing connections *)
@@ -519,7 +531,7 @@ Proof.
     cbn [app].
     pose proof (fresh_old_conn s o r NEW FR) as FR'.
     assert (VC : match o with OConnect _ _ _ _ _ => False | _ => True end).
-    { destruct o; auto. cbn [is_new_conn fresh_conns] in *. destruct (memN c (st_used s)); try discriminate. cbn in FR. discriminate. }
+    { destruct o; auto. cbn [is_new_conn fresh_conns] in *. destruct (memN c (st_used s)); discriminate. }
     split.
     + split; [exact INV'| |rewrite U; exact FR'].
       cbn [b_closed]. apply (closed_update m s s' outs EVX CL CO).
